@@ -36,7 +36,7 @@ func zzRefLocation(body []byte, pos int) (int, int) {
 // ZZ_C18_kernel: GetLocation agrees with the reference for every body of up to
 // N bytes and every position inside it.
 func ZZ_C18_kernel() {
-	n := zzChoice("n", 7)
+	n := zzChoice("n", zzParam("N", 6)+1)
 	body := zzBytes("body", n)
 	pos := zzInt("pos", 0, n)
 	// a position strictly inside a CRLF pair does not start any token or node
